@@ -248,7 +248,8 @@ def c18c(tree, ob):
             loop = enclosing(f, (ast.While, ast.For))
             goal = fv.node(loop.test if isinstance(loop, ast.While) else loop.iter) if loop is not None and enclosing(loop, (ast.FunctionDef,)) is item else fv.cfg.exit
             after = fv.cfg.must_pass(fn, goal, removers, include_exc=False)[0] if removers else False
-            before = any(fv.cfg.must_pass(fv.cfg.entry if goal is fv.cfg.exit else goal, fn, {r}, include_exc=False)[0] for r in removers) if goal is fv.cfg.exit else False
+            # removal earlier on every path to the emit (from function entry, or from the loop head within one iteration)
+            before = any(fv.cfg.must_pass(fv.cfg.entry if goal is fv.cfg.exit else goal, fn, {r}, include_exc=False)[0] for r in removers)
             if after or before:
                 ob.site(SESS, f, '{}: finished signal is paired with removal from the TX map'.format(item.name))
             else:
